@@ -45,7 +45,7 @@ Proof.
   destruct (Z.leb_spec 0 pos) as [H0|]; [|discriminate].
   destruct (Z.leb_spec (pos + Z.of_nat n) (zlen sec)) as [H1|]; [|discriminate].
   cbn [andb] in H. injection H as <-. destruct (Z.ltb_spec pos 0); [lia|].
-  unfold zskipn, uint_decode, take.
+  unfold zskipn, uint_decode. rewrite ?take_unfold.
   destruct (Z.leb_spec (zlen sec) pos) as [Hge|Hlt].
   - assert (n = 0%nat) by lia. subst n. cbn. reflexivity.
   - rewrite skipn_length. unfold zlen in H1, Hlt.
